@@ -116,6 +116,25 @@ func oracle(in *ctl.Inst, r *vs.Result) []string {
 	} else if !o.DoneAtRead {
 		msgs = append(msgs, fmt.Sprintf("never ready | %s", desc))
 	}
+	// keys that are absent from some accepted server content of the history (not there from the start, deleted, or
+	// relabelled out of the filter): a list or a watch frame may legitimately remove those; the others never
+	everLeaves := map[string]bool{}
+	for i := range refs {
+		for _, ob := range strings.Fields(strings.Trim(refs[i], "[]")) {
+			k := ob[:strings.Index(ob, "@")]
+			for j := range refs {
+				if !strings.Contains(refs[j], k+"@") {
+					everLeaves[k] = true
+				}
+			}
+		}
+	}
+	staleFrames := in.C.DefaultWatch.Kind == "stale-delete"
+	for _, f := range in.C.WatchFaults {
+		if f.Kind == "stale-delete" {
+			staleFrames = true
+		}
+	}
 	// subscribers: events account for the difference, versions never regress, Get never older than the event (C05)
 	hx.Walk(in.Nodes, func(n *hx.Node) {
 		if !n.IsLeaf() || n.Spec.Kind != "sub" {
@@ -133,6 +152,9 @@ func oracle(in *ctl.Inst, r *vs.Result) []string {
 			fmt.Sscanf(obj[strings.Index(obj, "@")+1:], "%d", &v)
 			if typ == "delete" {
 				delete(ver, key)
+				if !everLeaves[key] && !staleFrames {
+					msgs = append(msgs, fmt.Sprintf("spurious delete | %s: the subscriber received %s although %s is in every accepted server content of the history (%v); events %v", desc, e, key, refs, n.Received))
+				}
 				continue
 			}
 			if pv, ok := ver[key]; ok && v <= pv {
@@ -196,6 +218,8 @@ func Property() runner.Property {
 				// watcher's buffer must not undo what the list installed
 				mk("recreate-around-relist/close@1", ctl.Cfg{Pre: pre, Hist: []ctl.Mut{{Op: "del", Name: "a", Delay: 3 * time.Second}, {Op: "set", Name: "a", Labels: "l=1"}}, WatchFaults: map[int]fakeapi.WatchFault{1: W("close", 1)}, ReadAt: 5 * time.Second}),
 				mk("watch-blocks-forever/late", ctl.Cfg{Pre: pre, Hist: late, DefaultWatch: W("block", 0)}),
+				// everything is deleted on the server and the watch never reports it: the (empty) relist must clear the cache
+				mk("relist-to-empty-server/watch-never-connects", ctl.Cfg{Pre: pre, Hist: []ctl.Mut{{Op: "del", Name: "a", Delay: 4 * time.Second}}, DefaultWatch: W("error", 0), ReadAt: 8 * time.Second}),
 				// the watch opened after relist #2 replays a stale DELETED frame and the server stays quiet: only relist #3
 				// (whose list carries the same resourceVersion as #2) can repair the cache
 				mk("stale-delete-replayed-after-relist/quiet", ctl.Cfg{Pre: pre, Hist: []ctl.Mut{{Op: "set", Name: "b", Labels: "l=1", Delay: time.Second}}, WatchFaults: map[int]fakeapi.WatchFault{2: W("stale-delete", 0)}, ReadAt: 10 * time.Second}),
@@ -263,6 +287,12 @@ func C05Controller(tier string) []runner.Sc {
 				ver[key] = v
 			}
 			streams = append(streams, strings.Join(n.Received, " "))
+			// every change of the cache was published to it: its events, replayed over the content at readiness, give the cache
+			if o.ReadySeen && !o.DoneAtRead {
+				if got := hx.MirrorTolerant(o.ReadyList, n.Received); got != o.CacheAtRead {
+					msgs = append(msgs, fmt.Sprintf("subscriber missed a published change | %s: leaf %s: content at readiness %s + events %v = %s, the cache holds %s", in.Desc(), n.Path, o.ReadyList, n.Received, got, o.CacheAtRead))
+				}
+			}
 		})
 		// all subscribers that existed from the start agree on the sequence
 		for _, s := range streams[1:] {
@@ -284,6 +314,9 @@ func C05Controller(tier string) []runner.Sc {
 	return []runner.Sc{
 		mk("watch-events", ctl.Cfg{Hist: h}),
 		mk("stale-relist", ctl.Cfg{Hist: []ctl.Mut{{Op: "set", Name: "a", Labels: "l=1", Delay: 3500 * time.Millisecond}, {Op: "set", Name: "b", Labels: "l=1"}}, ListFaults: map[int]fakeapi.ListFault{2: {Latency: time.Second, Stale: true}}}),
+		// the watch loses a delete that comes after newer events for other objects: the relist's Delete (which carries
+		// the old cached version) must still reach every subscriber
+		mk("watch-drops-delete/relist-finds-it", ctl.Cfg{Hist: []ctl.Mut{{Op: "set", Name: "b", Labels: "l=1"}, {Op: "del", Name: "a"}}, WatchFaults: map[int]fakeapi.WatchFault{1: {Kind: "drop", After: 1}}, ReadAt: 8 * time.Second}),
 	}
 }
 
